@@ -2,7 +2,7 @@
    bool, option, unit, list, prod, sumbool, sumor are mapped to OCaml's; Z, positive, nat, ascii stay inductive. *)
 Require Extraction.
 Require Import ExtrOcamlBasic.
-From CF Require Import ListAux Defs Burn Core.
+From CF Require Import ListAux Defs Burn Core Cert.
 Extraction Language OCaml.
 Extraction "model.ml"
   nv mult Vg wfb valg nedges_g genus_g degD graph_eqb div_eqb connected_b
@@ -11,4 +11,5 @@ Extraction "model.ml"
   ewd_q ewd is_winnable winnable_plain q_reduction reduced_b linear_equivalence
   dsub dadd dneg dscale placements
   rank_plain rank_opt rank_opt_uncorrected canonical_g
-  play_game test_strategy find_strategies compute_gonality.
+  play_game test_strategy find_strategies compute_gonality
+  lin_equiv_q conc_ok cert_ok indeg_o outdeg_o burn_orient burn_pos.
